@@ -658,7 +658,7 @@ func explore(ctx *xplor.Ctx, c cfg, k, shard, nshards int) {
 			}
 			ctx.Count(fmt.Sprintf("runs_with_%d_deviations", len(cur)), 1)
 			if r.msg != "" {
-				ctx.Violation("", fmt.Sprintf("%+v deviations %v: %s", c, devList(cur), r.msg), replay{c, cur})
+				ctx.Violation(sigOf(c, cur, r.msg), fmt.Sprintf("%+v deviations %v: %s", c, devList(cur), r.msg), replay{c, cur})
 			} else if r.endKey != "" {
 				if ctx.Distinct(xplor.Hash(fmt.Sprint(c), r.endKey)) {
 					ctx.State(1)
@@ -683,6 +683,21 @@ func explore(ctx *xplor.Ctx, c cfg, k, shard, nshards int) {
 	}
 	rec(0, nil)
 	ctx.Max("max_deviation_universe", int64(len(u)))
+}
+
+// sigOf: F23 = the "distinct producers" clause fails in a run in which the Byzantine producer
+// announced a confirmation range larger than the honest one (Confirms = blockNo): its block then
+// confirms blocks it has already confirmed, so one producer is counted twice.
+func sigOf(c cfg, ds []dev, msg string) string {
+	if c.Byz < 0 || !strings.Contains(msg, "distinct producers") {
+		return ""
+	}
+	for _, d := range ds {
+		if d.Kind == "byz" && strings.Contains(d.Ch, ":2") {
+			return "F23"
+		}
+	}
+	return ""
 }
 
 func devList(ds []dev) string {
@@ -713,7 +728,7 @@ func run(ctx *xplor.Ctx) {
 		}
 		res := runDevs(r.Cfg, r.Devs)
 		if res.msg != "" {
-			ctx.Violation("", fmt.Sprintf("%+v deviations %v: %s", r.Cfg, devList(r.Devs), res.msg), r)
+			ctx.Violation(sigOf(r.Cfg, r.Devs, res.msg), fmt.Sprintf("%+v deviations %v: %s", r.Cfg, devList(r.Devs), res.msg), r)
 		}
 		return
 	}
